@@ -133,7 +133,8 @@ impl TplLitTypeItem {
 
     pub fn regex_expr(&self) -> String {
         match self {
-            TplLitTypeItem::String => "(.*)".to_string(),
+            // `${string}` spans line breaks: `.` alone would not
+            TplLitTypeItem::String => r"([\s\S]*)".to_string(),
             TplLitTypeItem::Number => r"(\d+(\.\d+)?)".to_string(),
             TplLitTypeItem::Boolean => "(true|false)".to_string(),
             TplLitTypeItem::OneOf(vs) => {
